@@ -65,6 +65,16 @@ pub struct HModel<S: Subject> {
     /// trace mode: every history is logged (flushed) before it is applied/checked, so that an abort
     /// (stack overflow, allocation failure) or a hang can be attributed to it
     pub trace: Option<Mutex<std::fs::File>>,
+    /// states in which a violation was observed (on the transition into them or by the invariant): they are
+    /// reported and NOT expanded — the successors of a corrupted object say nothing more, and a corrupted object
+    /// may have a state space that no longer closes
+    pub bad: Mutex<std::collections::HashSet<u64>>,
+}
+
+fn state_key<Op>(s: &HState<Op>) -> u64 {
+    let mut h = std::collections::hash_map::DefaultHasher::new();
+    s.hash(&mut h);
+    h.finish()
 }
 
 impl<S: Subject> HModel<S> {
@@ -101,6 +111,9 @@ impl<S: Subject> Model for HModel<S> {
         if !self.closing && state.hist.len() >= self.max_depth {
             return;
         }
+        if self.bad.lock().unwrap().contains(&state_key(state)) {
+            return;
+        }
         let obj = self.rebuild(&state.hist);
         actions.extend(self.subject.ops(&obj, &state.hist));
     }
@@ -120,13 +133,18 @@ impl<S: Subject> Model for HModel<S> {
         let mut hist = last.hist.clone();
         hist.push(action);
         let canon = self.subject.canon(&obj);
+        let violated = !local.findings.is_empty();
         self.acc.lock().unwrap().merge(local);
         let keyed_depth = if self.closing { None } else { Some(hist.len()) };
-        Some(HState {
+        let next = HState {
             hist,
             canon: Arc::new(canon),
             keyed_depth,
-        })
+        };
+        if violated {
+            self.bad.lock().unwrap().insert(state_key(&next));
+        }
+        Some(next)
     }
     fn properties(&self) -> Vec<Property<Self>> {
         vec![Property::always("invariant (violations are collected, see evidence)", |m: &HModel<S>, s: &HState<S::Op>| {
@@ -135,6 +153,9 @@ impl<S: Subject> Model for HModel<S> {
             m.subject.check(&obj, &s.hist, &mut local);
             local.count("states", 1);
             local.outcome(&*s.canon);
+            if !local.findings.is_empty() {
+                m.bad.lock().unwrap().insert(state_key(s));
+            }
             m.acc.lock().unwrap().merge(local);
             true
         })]
@@ -155,6 +176,7 @@ pub fn explore_traced<S: Subject>(subject: S, max_depth: Option<usize>, threads:
         max_depth: max_depth.unwrap_or(usize::MAX),
         closing: max_depth.is_none(),
         trace: trace_path.map(|p| Mutex::new(std::fs::OpenOptions::new().create(true).append(true).open(p).expect("trace file"))),
+        bad: Mutex::new(std::collections::HashSet::new()),
     };
     let threads = if trace_path.is_some() { 1 } else { threads };
     let checker = model.checker().threads(threads).spawn_bfs().join();
